@@ -44,12 +44,15 @@ var sNames = []string{"join", "remove", "restart", "snapshot", "tick", "link-tap
 
 type Step struct {
 	K    int   `json:"k"`
-	A    int   `json:"a"`              // member index the step is about (joiner / removed / restarted / snapshotting)
-	Via  int   `json:"via,omitempty"`  // member asked to perform the join / removal (mod members that are in)
-	Cut  int   `json:"cut,omitempty"`  // join: break the reply stream after Cut nodes (0 = no loss)
+	A    int   `json:"a"`             // member index the step is about (joiner / removed / restarted / snapshotting)
+	Via  int   `json:"via,omitempty"` // member asked to perform the join / removal (mod members that are in)
+	Cut  int   `json:"cut,omitempty"` // join: break the reply stream after Cut nodes (0 = no loss)
 	N    int   `json:"n,omitempty"`
 	B    int   `json:"b,omitempty"`
 	Tape []int `json:"tape,omitempty"`
+	// join: raft traffic to the joiner is lost until the members have compacted their logs past its join entry, so the
+	// joiner (which has the member list from the handshake) gets its whole membership log as a snapshot
+	Behind bool `json:"behind,omitempty"`
 }
 
 type Case struct {
@@ -75,6 +78,7 @@ func genCase(t *rapid.T) Case {
 			if rapid.IntRange(0, 3).Draw(t, "lossy") == 0 {
 				s.Cut = rapid.SampledFrom([]int{-1, 1, 2, 3}).Draw(t, "cut")
 			}
+			s.Behind = rapid.IntRange(0, 3).Draw(t, "behind") == 0
 		case STick:
 			s.N = rapid.SampledFrom([]int{1, 3, 12, 25}).Draw(t, "n")
 		case SLinkTape:
@@ -152,14 +156,14 @@ type member struct {
 	removed bool
 	inc     int
 
-	conn   *cluster.Conn
-	tr     *raft.RaftTransport
-	zero   *raft.RaftGroup
-	mon    *sim.MonWAL
-	nm     *raft.NodesManager
-	lossy  *lossyNM
-	srv    *grpc.Server
-	lis    net.Listener
+	conn               *cluster.Conn
+	tr                 *raft.RaftTransport
+	zero               *raft.RaftGroup
+	mon                *sim.MonWAL
+	nm                 *raft.NodesManager
+	lossy              *lossyNM
+	srv                *grpc.Server
+	lis                net.Listener
 	hadSnapshotRestart bool
 }
 
@@ -179,9 +183,15 @@ func (w *world) start(m *member, first bool) error {
 		}
 		m.addr = m.lis.Addr().String()
 	} else {
-		m.lis, err = net.Listen("tcp", m.addr)
+		// the port was released a moment ago; an outgoing connection of this process may hold it as its source port
+		for try := 0; try < 100; try++ {
+			if m.lis, err = net.Listen("tcp", m.addr); err == nil {
+				break
+			}
+			time.Sleep(20 * time.Millisecond)
+		}
 		if err != nil {
-			return err
+			return errListen
 		}
 	}
 	m.conn, err = cluster.NewConn(m.id, m.addr, "")
@@ -239,6 +249,8 @@ func (w *world) tickAll(n int) {
 		}
 	}
 }
+
+var errListen = errors.New("sim: the member's port cannot be bound again")
 
 var errStuck = errors.New("sim: call did not return within the bound")
 
@@ -332,14 +344,19 @@ func check(c Case, o *pbt.Obs) *pbt.Failure {
 	}
 	// applied reports whether the membership change has been applied by raft on every live in-member
 	// (judged on raft's own configuration, not on the address book, which is what the oracle checks later)
+	var lagging *member // a joiner whose raft links are still cut: it cannot have applied anything
 	applied := func(id uint64, present bool) bool {
 		for _, x := range inMembers() {
 			if x.id == id && !present {
 				continue // the removed node's own view does not matter
 			}
+			if x == lagging {
+				continue
+			}
 			nodes := x.zero.VerifConfNodes()
 			if nodes == nil {
-				return false
+				// no membership change applied by this incarnation yet: the member set its store gives at the applied index
+				nodes = x.mon.MembersAt(x.zero.VerifStatus().Applied)
 			}
 			in := false
 			for _, n := range nodes {
@@ -379,7 +396,10 @@ func check(c Case, o *pbt.Obs) *pbt.Failure {
 				continue
 			}
 			via := ins[s.Via%len(ins)]
-			if err := w.start(m, false); err != nil {
+			if err := w.start(m, false); err == errListen {
+				o.Inconclusive("port-of-restarting-member-taken")
+				return nil
+			} else if err != nil {
 				panic(err)
 			}
 			if s.Cut != 0 {
@@ -390,6 +410,14 @@ func check(c Case, o *pbt.Obs) *pbt.Failure {
 			}
 			if via.zero.VerifStatus().RaftState != etcdRaft.StateLeader {
 				joinsViaFollower++
+			}
+			if s.Behind {
+				for _, x := range w.ms {
+					if x != m {
+						w.net.SetDown(x.id, m.id, true)
+					}
+				}
+				lagging = m
 			}
 			// the joiner asks `via`; with a lossy handshake it retries once through the same member, as an operator would
 			// (the RPC blocks on the member while it knows no leader: logical time must keep flowing meanwhile)
@@ -415,6 +443,31 @@ func check(c Case, o *pbt.Obs) *pbt.Failure {
 				if !settleChange(m.id, true) {
 					unknown[m.id] = true
 					o.Label("acknowledged-change-did-not-settle")
+				}
+			}
+			if s.Behind {
+				if err == nil && !unknown[m.id] {
+					// the members compact their logs past the join entry, then the joiner is reachable again
+					for _, x := range inMembers() {
+						if x != m {
+							x.zero.VerifSnapshotNow()
+						}
+					}
+				}
+				for _, x := range w.ms {
+					if x != m {
+						w.net.SetDown(x.id, m.id, false)
+					}
+				}
+				lagging = nil
+				if err == nil {
+					for r := 0; r < 600 && !applied(m.id, true); r++ {
+						w.tickAll(1)
+						time.Sleep(100 * time.Microsecond)
+					}
+					if sn, e := wal.NewBadgerWAL(m.db, uuid.Nil).Snapshot(); e == nil && !etcdRaft.IsEmptySnap(sn) {
+						o.Label("joiner-caught-up-through-a-snapshot")
+					}
 				}
 			}
 			if err == nil {
@@ -457,7 +510,10 @@ func check(c Case, o *pbt.Obs) *pbt.Failure {
 			snap, _ := wal.NewBadgerWAL(m.db, uuid.Nil).Snapshot()
 			w.kill(m)
 			time.Sleep(200 * time.Microsecond)
-			if err := w.start(m, false); err != nil {
+			if err := w.start(m, false); err == errListen {
+				o.Inconclusive("port-of-restarting-member-taken")
+				return nil
+			} else if err != nil {
 				return pbt.Failf("C20:restart-fails", "step %d: member %d does not come up again: %v", si, m.i, err)
 			}
 			if len(model) > 1 {
@@ -470,12 +526,8 @@ func check(c Case, o *pbt.Obs) *pbt.Failure {
 			}
 			o.Label("restart")
 		case SSnapshot:
-			if pbt.Open("C20:addresses-not-in-snapshot") {
-				// known finding: once a log is compacted, restarted or later-joining members lose addresses;
-				// keep compaction out of the histories while it is open
-				pbt.CountExcluded("TestMembershipConverges", "C20:addresses-not-in-snapshot")
-				continue
-			}
+			// (known finding C20:addresses-not-in-snapshot: members whose log starts at a snapshot are judged by a narrower
+			// predicate at the end, see there)
 			if m.up && m.joined && !m.removed {
 				m.zero.VerifSnapshotNow()
 				o.Label("snapshot-now")
@@ -493,6 +545,13 @@ func check(c Case, o *pbt.Obs) *pbt.Failure {
 		if f := sim.TakeUnexpectedFatal(); f != "" {
 			return pbt.Failf("C20:fatal-in-zero-group", "step %d %s: log.Fatal in the zero group's ready loop: %.500s", si, sNames[s.K], f)
 		}
+		for _, x := range w.ms {
+			if x.mon != nil {
+				for _, v := range x.mon.TakeViolations() {
+					return pbt.Failf("C20:membership-store-invariant", "step %d %s, member %d: %s", si, sNames[s.K], x.i, v)
+				}
+			}
+		}
 	}
 	// quiescence: heal, keep ticking until every in-member agrees with the model (bounded)
 	w.net.HealAll()
@@ -505,11 +564,23 @@ func check(c Case, o *pbt.Obs) *pbt.Failure {
 			if unknown[m.id] {
 				continue
 			}
+			// known finding C20:addresses-not-in-snapshot: the address book is rebuilt from membership entries only, so a
+			// member whose log starts at a snapshot may miss members (or their addresses) whose entries were compacted
+			// away, and may keep listing a node whose removal it never saw as a log entry. While it is open such a
+			// member is judged only on what its own log still tells it: a removal it applied from its log must be gone.
+			startsAtSnapshot := false
+			if sn, err := wal.NewBadgerWAL(m.db, uuid.Nil).Snapshot(); err == nil && !etcdRaft.IsEmptySnap(sn) {
+				startsAtSnapshot = pbt.Open("C20:addresses-not-in-snapshot")
+			}
 			for id, addr := range model {
 				if unknown[id] {
 					continue
 				}
 				a, ok := got[id]
+				if startsAtSnapshot && (!ok || a != addr) {
+					pbt.CountExcluded("TestMembershipConverges", "C20:addresses-not-in-snapshot")
+					continue
+				}
 				if !ok {
 					diff = fmt.Sprintf("member %d does not list %d (acknowledged join, address %q); it lists %s", m.i, id, addr, nodesString(got))
 				} else if a != addr {
@@ -532,8 +603,12 @@ func check(c Case, o *pbt.Obs) *pbt.Failure {
 							removed = true
 						}
 					}
+					if removed && startsAtSnapshot && !m.mon.RemovedInLog(id, m.zero.VerifStatus().Applied) {
+						pbt.CountExcluded("TestMembershipConverges", "C20:addresses-not-in-snapshot")
+						continue
+					}
 					if removed {
-						diff = fmt.Sprintf("member %d still lists %d whose removal was acknowledged; it lists %s", m.i, id, nodesString(got))
+						diff = fmt.Sprintf("member %d still lists %d whose removal was acknowledged (and, if its log starts at a snapshot, which it applied from its own log); it lists %s", m.i, id, nodesString(got))
 					}
 				}
 			}
@@ -572,7 +647,7 @@ func check(c Case, o *pbt.Obs) *pbt.Failure {
 func TestMembershipConverges(t *testing.T) {
 	pbt.Run(t, pbt.Prop[Case]{
 		ID: "C20", Name: "TestMembershipConverges",
-		Rule: "rapid-generated histories on up to 5 members, each with a real zero RaftGroup (+ shared group), NodesManager and Conn over its own Badger store; joins run the repository's NodesManager.Join against a real gRPC NodesManager service on a loopback port of the member asked (optionally breaking the reply stream after 0-2 nodes, with one retry), removals through any member, restarts of members (new Conn/transport/group over the same store, same address), zero-group snapshots through the loop hook, raft messages through the simulated network with per-link decision tapes, logical ticks; oracle after healing and bounded quiescence: every live member whose join was acknowledged lists every acknowledged, not removed member with the address it announced, and lists no member whose removal was acknowledged; no log.Fatal in a zero group; non-trivial = >=2 members and (a restart after a join or a lossy handshake); distinct = distinct case JSON",
+		Rule:    "rapid-generated histories on up to 5 members, each with a real zero RaftGroup (+ shared group), NodesManager and Conn over its own Badger store; joins run the repository's NodesManager.Join against a real gRPC NodesManager service on a loopback port of the member asked (optionally breaking the reply stream after 0-2 nodes, with one retry), joins whose raft traffic is lost until the members have compacted their logs (the joiner catches up through a snapshot), removals through any member, restarts of members (new Conn/transport/group over the same store, same address), zero-group snapshots (log compaction) through the loop hook on any member at any point, raft messages through the simulated network with per-link decision tapes, logical ticks; oracle after healing and bounded quiescence: every live member whose join was acknowledged lists every acknowledged, not removed member with the address it announced, and lists no member whose removal was acknowledged; the membership stored with every local snapshot equals the membership at its index (stored snapshot's members + membership entries up to it), durable term/commit never go back; no log.Fatal in a zero group; non-trivial = >=2 members and (a restart after a join or a lossy handshake); distinct = distinct case JSON",
 		Gen:     genCase,
 		Check:   check,
 		Journal: true,
